@@ -98,6 +98,11 @@ fn case_ctor_seconds(s: u32, acc: &mut Acc) {
     acc.branch(if s < 86_400 { "ctor-accepted" } else { "ctor-refused" });
 }
 
+thread_local! {
+    /// the valid triple accepted just before on this thread (recorded so that a replay repeats the history)
+    static PRE_ANCHOR: std::cell::Cell<Option<(u32, u32, u32)>> = std::cell::Cell::new(None);
+}
+
 fn case_ctor_hms(h: u32, m: u32, s: u32, acc: &mut Acc) {
     acc.transitions += 1;
     acc.states += 1;
@@ -109,7 +114,7 @@ fn case_ctor_hms(h: u32, m: u32, s: u32, acc: &mut Acc) {
         _ => false,
     };
     if !ok {
-        acc.violation("Time::from_hms", "accepts-exactly-the-day", json!({"kind": "ctor_hms", "args": [h, m, s]}), if valid { "Ok".into() } else { "Err(OutOfRange)".into() }, format!("{:?}", got));
+        acc.violation("Time::from_hms", "accepts-exactly-the-day", json!({"kind": "ctor_hms", "args": [h, m, s], "after": PRE_ANCHOR.with(|a| a.get()).map(|(x, y, z)| vec![x, y, z])}), if valid { "Ok".into() } else { "Err(OutOfRange)".into() }, format!("{:?}", got));
     }
     acc.branch(if valid { "ctor-accepted" } else { "ctor-refused" });
 }
@@ -233,6 +238,20 @@ pub fn run(ctx: &Ctx) -> i32 {
     let (hb, mb, sb) = (ab::u32_b(23, 3600), ab::u32_b(59, 60), ab::u32_b(59, 1));
     let (a, b, c) = (hb.len() as u64, mb.len() as u64, sb.len() as u64);
     rep.sweep("Time::from_hms: U32_B(23) x U32_B(59) x U32_B(59)", a * b * c, "", |i, acc| case_ctor_hms(hb[(i / (b * c)) as usize], mb[(i / c % b) as usize], sb[(i % c) as usize], acc));
+    // from_hms over a complete small cube, each triple right after a fixed valid triple was accepted on
+    // the same thread (the mirror image of the purity probe: whatever accepting the anchor leaves
+    // behind must not make an invalid triple pass; the cube is complete, so some triple collides
+    // with the anchor under any packed or hashed key)
+    let anchors: [(u32, u32, u32); 3] = [(23, 59, 59), (0, 0, 0), (12, 30, 30)];
+    rep.sweep("Time::from_hms on the cube 0..=31 x 0..=127 x 0..=127, each right after an accepted anchor triple (3 anchors)", 32 * 128 * 128 * 3, "", |i, acc| {
+        let (ah, am, asec) = anchors[(i % 3) as usize];
+        let r = i / 3;
+        let (h, m, sec) = ((r / (128 * 128)) as u32, (r / 128 % 128) as u32, (r % 128) as u32);
+        let _ = call(|| Time::from_hms(ah, am, asec).map(|t| t.as_nanos()));
+        PRE_ANCHOR.with(|a| a.set(Some((ah, am, asec))));
+        case_ctor_hms(h, m, sec, acc);
+        PRE_ANCHOR.with(|a| a.set(None));
+    });
     // Times obtained from text: every sequence of one to three sub-second fields (tenths .. nanoseconds)
     // after the clock fields, with digit strings at the top and the bottom of each field, at the ends of the day
     let subs: [(&str, usize); 5] = [("n", 1), ("nn", 2), ("nnn", 3), ("nnnn", 6), ("nnnnn", 9)];
@@ -270,6 +289,11 @@ pub fn replay(_op: &str, case: &Value, acc: &mut Acc) -> bool {
         Some("from_dt") => case_from_dt(case["day"].as_i64().unwrap(), case["nod"].as_str().unwrap().parse().unwrap(), case["off"].as_i64().unwrap() as i32, acc),
         Some("ctor_nanos") => case_ctor_nanos(case["n"].as_str().unwrap().parse().unwrap(), acc),
         Some("ctor_seconds") => case_ctor_seconds(case["s"].as_u64().unwrap() as u32, acc),
+        Some("ctor_hms") if case["after"].is_array() => {
+            let a = &case["after"];
+            let _ = call(|| Time::from_hms(a[0].as_u64().unwrap() as u32, a[1].as_u64().unwrap() as u32, a[2].as_u64().unwrap() as u32).map(|t| t.as_nanos()));
+            case_ctor_hms(case["args"][0].as_u64().unwrap() as u32, case["args"][1].as_u64().unwrap() as u32, case["args"][2].as_u64().unwrap() as u32, acc)
+        }
         Some("ctor_hms") => case_ctor_hms(case["args"][0].as_u64().unwrap() as u32, case["args"][1].as_u64().unwrap() as u32, case["args"][2].as_u64().unwrap() as u32, acc),
         Some("parse") => case_parse_inside_day(case["input"].as_str().unwrap(), case["pattern"].as_str().unwrap(), acc),
         Some("machine") => machine::replay_time(case, acc),
